@@ -187,18 +187,31 @@ class Repo:
         except KeyError:
             raise AnchorMissing(f'module {name} not found') from None
 
+    # the entry points of the solvers are read with their private helper methods (their own class's, a base class's, or -
+    # for a mixin - the package's only method of that name) in place of the calls: `self._check_position(t)` is the check
+    INLINE_ENTRIES = (
+        'fsic.core.models.BaseModel.solve_t', 'fsic.core.linkers.BaseLinker.solve_t', 'fsic.core.linkers.BaseLinker.evaluate_t',
+        'fsic.core.linkers.BaseLinker.solve', 'fsic.fortran.FortranEngine.solve_t', 'fsic.fortran.FortranEngine.solve',
+        'fsic.core.interfaces.SolverMixin.solve', 'fsic.core.interfaces.SolverMixin.solve_period', 'fsic.core.interfaces.SolverMixin.iter_periods',
+    )
+
     def func(self, qualname: str) -> FunctionInfo:
         try:
-            return self.functions[qualname]
+            fi = self.functions[qualname]
         except KeyError:
             raise AnchorMissing(f'function {qualname} not found') from None
+        if qualname in self.INLINE_ENTRIES:
+            return self.func_with_private_methods_inlined(qualname)
+        return fi
 
     def func_with_private_methods_inlined(self, qualname: str) -> FunctionInfo:
         """The method `qualname` with calls of private helper methods of its class (`self._m(...)`, see
         fsa/inline.py) replaced by their bodies - on a private copy of the class; the ordinary view is unchanged."""
         import copy
         from .inline import _inline_methods_in_class
-        fi = self.func(qualname)
+        if qualname not in self.functions:
+            raise AnchorMissing(f'function {qualname} not found')
+        fi = self.functions[qualname]
         if fi.cls is None or fi.parent is not None:
             return fi
         cache = getattr(self, '_inlined_classes', None)
@@ -206,7 +219,30 @@ class Repo:
             cache = self._inlined_classes = {}
         if fi.cls.qualname not in cache:
             c2 = copy.deepcopy(fi.cls.node)
-            n = _inline_methods_in_class(c2)
+            extra = {}
+            try:
+                mro = c3_mro(self, fi.cls.qualname)[1:]
+            except Exception:
+                mro = []
+            for bq in reversed(mro):
+                for m in self.classes[bq].node.body:
+                    if isinstance(m, ast.FunctionDef):
+                        extra[m.name] = m
+            # a mixin's `self._m`: the package's only definition of a method of that name
+            called = {x.func.attr for x in ast.walk(fi.cls.node) if isinstance(x, ast.Call) and isinstance(x.func, ast.Attribute)
+                      and isinstance(x.func.value, ast.Name) and x.func.value.id == 'self' and x.func.attr.startswith('_')}
+            for nm in called - set(extra):
+                defs = [m for ci in self.classes.values() for m in ci.node.body if isinstance(m, ast.FunctionDef) and m.name == nm]
+                if len(defs) == 1:
+                    extra[nm] = defs[0]
+            # hooks stay calls: methods some class of the package overrides
+            seen = {}
+            for ci in self.classes.values():
+                for m in ci.node.body:
+                    if isinstance(m, ast.FunctionDef):
+                        seen[m.name] = seen.get(m.name, 0) + 1
+            keep = tuple(nm for nm, k in seen.items() if k > 1)
+            n = _inline_methods_in_class(c2, extra=extra, keep=keep)
             cache[fi.cls.qualname] = (c2, n)
         c2, n = cache[fi.cls.qualname]
         if not n:
